@@ -6,6 +6,7 @@ import (
 	"bytes"
 	"context"
 	"fmt"
+	"os"
 
 	"github.com/canopy-network/canopy/fsm"
 	"github.com/canopy-network/canopy/lib"
@@ -129,6 +130,32 @@ func (c *certChain) certTx(r *sim.Rng) (txBytes []byte, meta map[string]any, non
 	if r.Chance(8) && c.height > 1 {
 		qcHeight = c.height - 1 // stale nested height: refused
 	}
+	skip := -1
+	if r.Chance(45) {
+		skip = 1 + r.Intn(len(members)-1)
+	}
+	meta["non_signer"] = skip >= 0
+	bz, ns := c.build(r, results, qcHeight, skip)
+	if bz == nil {
+		return nil, nil, nil
+	}
+	return bz, meta, ns
+}
+
+// build signs the results as the certificate of nested height qcHeight; member index skip (if >= 0) does not sign
+func (c *certChain) build(r *sim.Rng, results *lib.CertificateResult, qcHeight uint64, skip int) (txBytes []byte, nonSigner []byte) {
+	n := c.n
+	n.Enter()
+	h := n.FSM.Height()
+	root := h - 1
+	vs, err := n.FSM.LoadCommittee(nested, root)
+	if err != nil || vs.MultiKey == nil {
+		return nil, nil
+	}
+	members := vs.ValidatorSet.ValidatorSet
+	if results.RewardRecipients == nil {
+		results.RewardRecipients = &lib.RewardRecipients{PaymentPercents: []*lib.PaymentPercents{{Address: sim.BLSKey(0).Addr, Percent: 100, ChainId: nested}}}
+	}
 	qc := &lib.QuorumCertificate{
 		Header:      &lib.View{Height: qcHeight, NetworkId: uint64(n.Config.NetworkID), RootHeight: root, ChainId: nested},
 		Results:     results,
@@ -136,12 +163,7 @@ func (c *certChain) certTx(r *sim.Rng) (txBytes []byte, meta map[string]any, non
 		BlockHash:   crypto.Hash([]byte(fmt.Sprintf("nested-block-%d", qcHeight))),
 		ProposerKey: members[0].PublicKey,
 	}
-	// signers: everybody, or one member left out (a non-signer; the rest still holds +2/3)
 	var signers []int
-	skip := -1
-	if r.Chance(45) {
-		skip = 1 + r.Intn(len(members)-1)
-	}
 	for i := range members {
 		if i != skip {
 			signers = append(signers, i)
@@ -149,24 +171,23 @@ func (c *certChain) certTx(r *sim.Rng) (txBytes []byte, meta map[string]any, non
 	}
 	sig, e := sim.AggregateSign(vs, qc.SignBytes(), signers)
 	if e != nil {
-		return nil, nil, nil
+		return nil, nil
 	}
 	qc.Signature = sig
-	meta["non_signer"] = skip >= 0
 	tx, terr := fsm.NewCertificateResultsTx(sim.BLSKey(0).Priv, qc, n.Config.ChainId, uint64(n.Config.NetworkID), 0, h, fmt.Sprintf("c%d-%d", qcHeight, r.Intn(1_000_000)))
 	if terr != nil {
-		return nil, nil, nil
+		return nil, nil
 	}
 	bz, merr := lib.Marshal(tx)
 	if merr != nil {
-		return nil, nil, nil
+		return nil, nil
 	}
-	if skip >= 0 {
+	if skip >= 0 && skip < len(members) {
 		if pk, e := crypto.NewPublicKeyFromBytes(members[skip].PublicKey); e == nil {
 			nonSigner = pk.Address().Bytes()
 		}
 	}
-	return bz, meta, nonSigner
+	return bz, nonSigner
 }
 
 func (c *certChain) openOrders() {
@@ -205,6 +226,7 @@ func Run(r *sim.Rng, nChains, perChain int, outDir string, wCert *sim.CaseWriter
 			continue
 		}
 		a.openOrders()
+		scripted := 0
 		for i := 0; i < perChain; i++ {
 			// ---- one transaction alone
 			tx, meta, nonSigner := a.certTx(r)
@@ -235,6 +257,9 @@ func Run(r *sim.Rng, nChains, perChain int, outDir string, wCert *sim.CaseWriter
 			}
 			okTx := len(res.Results) == 1
 			if !okTx {
+				if os.Getenv("VERIF_DEBUG") != "" {
+					fmt.Printf("certsim failed tx: nonSigner=%x tracker before [%s] after [%s]\n", nonSigner, trackerBefore, a.n.FSM.VerifSlashTrackerDigest())
+				}
 				if after := a.n.FSM.VerifSlashTrackerDigest(); after != trackerBefore {
 					sim.Direct(outDir, map[string]any{"finding": "failed-transaction-left-trace", "kind": "the per-block slash tracker differs after a failed certificate-results transaction",
 						"tracker_before": trackerBefore, "tracker_after": after})
@@ -254,7 +279,33 @@ func Run(r *sim.Rng, nChains, perChain int, outDir string, wCert *sim.CaseWriter
 			a.n.FSM.Reset() // drop it: the block below is built on the committed state of both twins
 			// ---- a block of several certificate-results transactions: twin A gets all, twin B only those that succeed on A
 			var txs [][]byte
-			for j := 0; j < 2+r.Intn(3); j++ {
+			// sometimes the block is the pattern [ok, FAILING-after-it-slashed, ok] around ONE validator V: V reported as a double
+			// signer at h1; then V settled as a non-signer (slashed first) and reported at h1 AGAIN (already indexed by now: the
+			// transaction fails); then V settled as a non-signer and reported at h2 - near the per-committee cap, which is kept in the
+			// per-block slash tracker
+			if a.n.FSM.Height() >= 3 && r.Chance(45) {
+				a.n.Enter()
+				if vs, e := a.n.FSM.LoadCommittee(nested, a.n.FSM.Height()-1); e == nil && len(vs.ValidatorSet.ValidatorSet) >= 4 {
+					k := 1 + r.Intn(len(vs.ValidatorSet.ValidatorSet)-1)
+					V := vs.ValidatorSet.ValidatorSet[k].PublicKey
+					h1, h2 := 2*scripted+1, 2*scripted+2 // heights never reported for anybody before
+					scripted++
+					if uint64(h2) <= a.n.FSM.Height()+1 {
+						ds := func(h int) *lib.CertificateResult {
+							return &lib.CertificateResult{SlashRecipients: &lib.SlashRecipients{DoubleSigners: []*lib.DoubleSigner{{Id: V, Heights: []uint64{uint64(h)}}}}}
+						}
+						t1, _ := a.build(r, ds(h1), a.height, k) // V signs none of the three: its miss in one is settled (slashed) at the start of the next
+						tF, _ := a.build(r, ds(h1), a.height+1, k)
+						t3, _ := a.build(r, ds(h2), a.height+1, k)
+						if t1 != nil && tF != nil && t3 != nil {
+							txs = append(txs, t1, tF, t3)
+							a.height += 2
+							count("certificate-block:scripted-ok-failing-ok")
+						}
+					}
+				}
+			}
+			for j := 0; j < 2+r.Intn(3) && len(txs) == 0; j++ {
 				t, _, _ := a.certTx(r)
 				if t != nil {
 					txs = append(txs, t)
